@@ -280,3 +280,98 @@ Example deser_ser_demo :
     end) bip32_key_net_versions = true.
 Proof. vm_compute. reflexivity. Qed.
 Print Assumptions deser_ser_demo.
+
+(* ===== linked to the concrete codec models ===== *)
+(* SLIP-32 on THE Bech32 codec of Model/Bech32.v (the C10 model, constants regenerated from /repo): the
+   [bech_law enc dec] premise of the SLIP-32 theorems above is gone, and nothing replaces it -- SLIP-32 uses
+   no hash, so these statements have no hypothesis about any oracle.
+
+   The abstract law quantified over every HRP; the real codec satisfies it only for well-formed HRPs
+   (non-empty, printable ASCII, no upper-case letter: [hrp_enc_ok]) -- see [slip32_law_false_of_codec] below.
+   The standard net versions "xpub"/"xprv" are well-formed ([slip32_std_hrps_wf], by computation on the
+   regenerated strings); for caller-supplied net versions the condition is a premise.  [slip32c_ser_*] are
+   the serialisers over the [res]-valued encoder (Model/LinkSlip32.v); [slip32c_deserialize] is
+   [slip32_deserialize bech32_decode]. *)
+From BU Require Import Model.Bech32 Model.LinkSlip32.
+From BU Require Lemmas.Bech32 Lemmas.LinkBech32 Lemmas.LinkSlip32.
+Notation hrp_enc_ok := Lemmas.Bech32.hrp_enc_ok.
+
+Theorem slip32_std_hrps_wf : hrp_enc_ok slip32_std_pub /\ hrp_enc_ok slip32_std_priv.
+Proof. exact LinkSlip32.slip32_std_hrps_ok. Qed.
+Print Assumptions slip32_std_hrps_wf.
+
+Theorem slip32_roundtrip_priv_concrete : forall path cc raw s,
+  path_ok path -> length cc = 32%nat -> bytes_ok cc -> bytes_ok raw ->
+  slip32c_ser_priv slip32_std path cc raw = Ok s ->
+  slip32c_deserialize s slip32_std = Ok (raw, path, cc, false).
+Proof.
+  intros path cc raw s.
+  exact (LinkSlip32.slip32c_roundtrip_priv slip32_std path cc raw s SerbipConstsOk.slip32_std_ok
+           (proj2 LinkSlip32.slip32_std_hrps_ok)).
+Qed.
+Print Assumptions slip32_roundtrip_priv_concrete.
+
+(* any net versions whose private HRP is well-formed *)
+Theorem slip32_roundtrip_priv_concrete_any : forall v path cc raw s,
+  length (fst v) = length (snd v) -> fst v <> snd v -> hrp_enc_ok (snd v) ->
+  path_ok path -> length cc = 32%nat -> bytes_ok cc -> bytes_ok raw ->
+  slip32c_ser_priv v path cc raw = Ok s ->
+  slip32c_deserialize s v = Ok (raw, path, cc, false).
+Proof. intros v path cc raw s H1 H2. exact (LinkSlip32.slip32c_roundtrip_priv v path cc raw s (conj H1 H2)). Qed.
+Print Assumptions slip32_roundtrip_priv_concrete_any.
+
+Theorem slip32_roundtrip_pub_concrete : forall v path cc pk s, hrp_enc_ok (fst v) ->
+  path_ok path -> length cc = 32%nat -> bytes_ok cc -> bytes_ok pk ->
+  slip32c_ser_pub v path cc pk = Ok s ->
+  slip32c_deserialize s v = Ok (pk, path, cc, true).
+Proof. exact LinkSlip32.slip32c_roundtrip_pub. Qed.
+Print Assumptions slip32_roundtrip_pub_concrete.
+
+(* the serialisers return on all well-formed parts, so the round trips are not vacuous *)
+Theorem slip32_serialize_total_concrete : forall v path cc key,
+  path_ok path -> length cc = 32%nat -> bytes_ok cc -> bytes_ok key ->
+  (exists s, slip32c_ser_priv v path cc key = Ok s) /\ (exists s, slip32c_ser_pub v path cc key = Ok s).
+Proof.
+  intros v path cc key Hp Lc Hc Hk.
+  exact (conj (LinkSlip32.slip32c_ser_priv_total v path cc key Hp Lc Hc Hk)
+              (LinkSlip32.slip32c_ser_pub_total v path cc key Hp Lc Hc Hk)).
+Qed.
+Print Assumptions slip32_serialize_total_concrete.
+
+Theorem slip32_ser_layout_concrete : forall v path cc raw, path_ok path -> length cc = 32%nat ->
+  slip32c_ser_priv v path cc raw = bech32_encode (snd v) (Lemmas.Slip32.slip32_layout path cc (0 :: raw)).
+Proof. exact LinkSlip32.slip32c_ser_layout. Qed.
+Print Assumptions slip32_ser_layout_concrete.
+
+(* every string, every pair of net-version strings: ValueError or Bech32ChecksumError, nothing else *)
+Theorem slip32_rejects_only_documented_concrete : forall v s e,
+  slip32c_deserialize s v = Err e -> e = ValueError \/ e = LibError Bech32ChecksumError.
+Proof. exact LinkSlip32.slip32c_errors. Qed.
+Print Assumptions slip32_rejects_only_documented_concrete.
+
+Theorem slip32_short_payload_rejected_concrete : forall cc s, length cc = 32%nat -> bytes_ok cc ->
+  bech32_encode slip32_std_priv (0 :: cc) = Ok s -> slip32c_deserialize s slip32_std = Err ValueError.
+Proof.
+  intros cc s.
+  exact (LinkSlip32.slip32c_short_payload slip32_std cc s SerbipConstsOk.slip32_std_ok (proj2 LinkSlip32.slip32_std_hrps_ok)).
+Qed.
+Print Assumptions slip32_short_payload_rejected_concrete.
+
+(* canonicity inherited from Bech32: an accepted public string is, up to letter case, the encoding of its payload *)
+Theorem slip32_accepted_is_canonical_concrete : forall v s pk path cc,
+  slip32c_deserialize s v = Ok (pk, path, cc, true) ->
+  exists ser, bech32_decode (fst v) s = Ok ser /\ bech32_encode (fst v) ser = Ok (Bech32Str.py_lower s).
+Proof. exact LinkSlip32.slip32c_deser_then_ser_pub. Qed.
+Print Assumptions slip32_accepted_is_canonical_concrete.
+
+(* [bech_law] as stated above is FALSE of the real codec: an upper-case HRP is encoded, and the string is
+   refused on the way back (mixed case).  With net versions ("X", "Y") a public key serialises and does not
+   deserialise -- so the abstract round-trip theorems were vacuous for such net versions, and the premise
+   [hrp_enc_ok] of the concrete ones is necessary.  (Observed on /repo: Slip32KeyNetVersions("XPUB", "XPRV").) *)
+Theorem slip32_law_false_of_codec :
+  (let s := [88; 49; 113; 113; 108; 104; 48; 122; 53; 51] in
+   bech32_encode [88] [0] = Ok s /\ bech32_decode [88] s = Err ValueError) /\
+  (exists s, slip32c_ser_pub ([88], [89]) [] (repeat 0 32) [2] = Ok s /\
+             slip32c_deserialize s ([88], [89]) = Err ValueError).
+Proof. exact (conj LinkBech32.bech32_rt_fails_uppercase_hrp LinkSlip32.slip32c_uppercase_hrp_not_roundtrip). Qed.
+Print Assumptions slip32_law_false_of_codec.
